@@ -5,7 +5,7 @@ META = dict(
     technique="explicit-state, level-synchronous BFS over Share/Deck/Store-time operation histories, replay-from-history on fresh real objects, "
               "canonical-state dedupe (time-translation invariant), reference model compared after every step",
     text="All interleavings, to depth 4 (quick) / 6 (thorough) with at most 2 / 3 queued deck elements, of value assignment, update / change / create in keyword, pair-list and dict form, item assignment and "
-         "deletion, pop / popitem / clear / setdefault / insert, every way of adding a field (incl. positional dict / odict / Share arguments) under an invalid name (leading underscore, leading digit, "
+         "deletion, pop / popitem / clear / setdefault (absent field, present field, present field holding None) / insert, every way of adding a field (incl. positional dict / odict / Share arguments) under an invalid name (leading underscore, leading digit, "
          "empty, trailing newline, hyphen, space, name of an existing Data attribute), stampNow, store time advance, detaching and re-attaching the store, and deck "
          "push / pull / gulp(None) / gulp(x) / spew with truthy and falsy elements (0, 0.0, False, '', (), [] -- compared by type and value).  After every transition the real share (ordered fields incl. the raw attribute dict, stamp, deck, "
          "store link, store time) must equal the model and the call's result or exception must match; on every new state ~55 read-only views (the field views once per distinct fields/stamp/store combination, the deck views on every state) (keys, "
@@ -196,6 +196,8 @@ def build_ops():
        lambda st: (st, ("ok", val(st[0], "v"))) if has(st[0], "v") else (with_fields(st, put(st[0], "v", 2)), ("ok", 2)))
     op("sh.setdefault('w')", "setdefault",
        lambda st: (st, ("ok", val(st[0], "w"))) if has(st[0], "w") else (with_fields(st, put(st[0], "w", None)), ("ok", None)))
+    op("sh.setdefault('w', 2)", "setdefault",      # after sh.setdefault('w') the field exists and holds None: it must stay None
+       lambda st: (st, ("ok", val(st[0], "w"))) if has(st[0], "w") else (with_fields(st, put(st[0], "w", 2)), ("ok", 2)))
     op("sh.insert(0, 'w', 1)", "insert",
        lambda st: (st, ("exc", "KeyError")) if has(st[0], "w") else (with_fields(st, (("w", 1),) + st[0]), OK))
     # stamps, time, store link
